@@ -18,7 +18,7 @@ func checkC12(c *an.Ctx) {
 	c.Rule("C12.1", "Cancel protocol (E8): (a) everything TaskRunner.Cancel can block on is a WaitGroup wait whose every Add registers a Done on all paths, or a short critical section; (b) a channel held in a TaskRunner field is closed only under a once-guard; (c) Cancel's effects are guarded by !canceling under the exclusive lock; (d) Run tests the cancelled context, under the lock that also covers its registration, before anything that executes a command, and returns a non-nil error on that branch")
 	c.Rule("C12.2", "commands run under the runner context (E5): every Execute of the before/command/after phases receives TaskRunner.ctx; Execute hands it, or a WithTimeout child of it, to the interpreter; ctx and cancelFunc come from one WithCancel pair assigned only in the constructor")
 	c.Rule("C12.3", "scheduler (E3/E4): Scheduler.Cancel stores the flag before cancelling the runner; the flag is loaded on every pass before any launch; a cancelled run still waits for its stages")
-	c.Rule("C12.4", "an interrupted command is fatal (E2): the rows 'not an exit status' of the job-walk table mark the task errored and return the error, with and without allow_failure")
+	c.Rule("C12.4", "an interrupted command is fatal (E2): the rows 'not an exit status' of the job-walk table mark the task errored and return the error, with and without allow_failure; a condition command, whose non-zero exit means skip, runs under a context cancellation cannot reach (an interrupted condition would read as not-met and the interrupted task as skipped)")
 	c.Rule("C12.6", "one runner, one cancellation state (E4): no whole-value copy of a TaskRunner (or of the object that holds its mutex, flag and WaitGroup) is made anywhere in the module — a copy shares the context but has a mutex, a flag and a WaitGroup of its own, so runs started through it are not waited for by Cancel on the original")
 	c.Rule("C12.5", "how a running command is stopped (library summary, option table): every interp.New in the module is given options from the closed set StdIO / Env / Dir / Params / OpenHandler, and an ExecHandler only if it is interp.DefaultExecHandler with a positive constant grace period — the library default interrupts the command, lets it stop its own children and kills it after the grace period; with a non-positive period the command is killed outright, its children are orphaned holding the output pipes, and the interpreter (and with it Run and Cancel) waits for them")
 	c.Summaries = append(c.Summaries, "mvdan.cc/sh/v3@v3.1.1 interp.DefaultExecHandler(d): on context cancellation sends os.Interrupt, then Kill after d; with d <= 0 sends Kill at once (read in interp/handler.go); interp.New installs DefaultExecHandler(2s)", "os/exec: a Stdin that is not an *os.File is copied to the child by a goroutine, and Cmd.Wait returns only after that goroutine has finished (package documentation of Cmd.Stdin)")
@@ -93,6 +93,7 @@ func checkC12(c *an.Ctx) {
 
 	// C12.4
 	executeTable(c, r, "C12.4", false)
+	conditionsNotInterrupted(c, "C12.4")
 
 	// C12.5
 	interpOptions(c, "C12.5")
@@ -706,4 +707,172 @@ func onlyUnderConstructor(p *an.Prog, fn *ssa.Function) bool {
 		}
 	}
 	return true
+}
+
+// conditionsNotInterrupted: a condition's verdict is not taken from an interrupted command. A task's condition and a
+// stage's condition both turn "the command exited non-zero" into "skip" — which is a success. A command killed by
+// cancellation also exits non-zero (or is reported as an exit error), so a condition that runs under the
+// cancellable context makes an interrupted task report success.
+func conditionsNotInterrupted(c *an.Ctx, rule string) {
+	p := c.P
+	// every origin of the context is context.Background()/TODO(), followed back through parameters (all call sites
+	// in the module) and closure variables
+	var trace func(v ssa.Value, seen map[ssa.Value]bool) (bool, string)
+	trace = func(v ssa.Value, seen map[ssa.Value]bool) (bool, string) {
+		if seen[v] {
+			return true, ""
+		}
+		seen[v] = true
+		srcs := an.Sources(v)
+		if len(srcs) == 0 {
+			return false, an.Prov(v)
+		}
+		for _, src := range srcs {
+			switch x := src.(type) {
+			case *ssa.Call:
+				switch an.ShortCallee(&x.Call) {
+				case "context.Background", "context.TODO":
+					continue
+				}
+				return false, an.FieldProv(src)
+			case *ssa.Parameter:
+				fn := x.Parent()
+				idx := -1
+				for i, q := range fn.Params {
+					if q == x {
+						idx = i
+					}
+				}
+				sites := p.CallSitesOf(fn)
+				if idx < 0 || len(sites) == 0 || (fn.Object() != nil && fn.Object().Exported()) {
+					return false, "parameter " + x.Name() + " of " + an.Short(fn)
+				}
+				for _, site := range sites {
+					cc := site.Common()
+					ai := idx
+					if cc.IsInvoke() {
+						ai--
+					}
+					if ai < 0 || ai >= len(cc.Args) {
+						return false, "parameter " + x.Name() + " of " + an.Short(fn)
+					}
+					if ok, what := trace(cc.Args[ai], seen); !ok {
+						return false, what
+					}
+				}
+			case *ssa.FreeVar:
+				fn := x.Parent()
+				found := false
+				if fn.Parent() != nil {
+					an.EachInstr(fn.Parent(), func(in ssa.Instruction) {
+						mc, ok := in.(*ssa.MakeClosure)
+						if !ok || mc.Fn != ssa.Value(fn) {
+							return
+						}
+						for i, fv := range fn.FreeVars {
+							if fv == x && i < len(mc.Bindings) {
+								found = true
+								if ok, _ := trace(mc.Bindings[i], seen); !ok {
+									found = false
+								}
+							}
+						}
+					})
+				}
+				if !found {
+					return false, "captured variable " + x.Name()
+				}
+			case *ssa.UnOp:
+				// a load of a captured cell: what was stored into it
+				if x.Op == token.MUL {
+					if fv, ok := x.X.(*ssa.FreeVar); ok {
+						if ok, what := trace(fv, seen); !ok {
+							return false, what
+						}
+						continue
+					}
+					if al, ok := x.X.(*ssa.Alloc); ok && al.Referrers() != nil {
+						n := 0
+						for _, ref := range *al.Referrers() {
+							if st, ok := ref.(*ssa.Store); ok && st.Addr == ssa.Value(al) {
+								n++
+								if ok, what := trace(st.Val, seen); !ok {
+									return false, what
+								}
+							}
+						}
+						if n > 0 {
+							continue
+						}
+					}
+				}
+				return false, an.FieldProv(src)
+			case *ssa.Alloc:
+				n := 0
+				if x.Referrers() != nil {
+					for _, ref := range *x.Referrers() {
+						if st, ok := ref.(*ssa.Store); ok && st.Addr == ssa.Value(x) {
+							n++
+							if ok, what := trace(st.Val, seen); !ok {
+								return false, what
+							}
+						}
+					}
+				}
+				if n == 0 {
+					return false, an.FieldProv(src)
+				}
+			default:
+				return false, an.FieldProv(src)
+			}
+		}
+		return true, ""
+	}
+	uncancellable := func(v ssa.Value) (bool, string) { return trace(v, map[ssa.Value]bool{}) }
+	n := 0
+	for _, fn := range p.Funcs {
+		if !an.InModule(fn) || fn.Blocks == nil {
+			continue
+		}
+		// the task's condition: the function that compiles Task.Condition and executes the job
+		if inPkgs("pkg/runner")(fn) {
+			compiles := false
+			an.EachInstr(fn, func(in ssa.Instruction) {
+				ci, ok := in.(ssa.CallInstruction)
+				if !ok {
+					return
+				}
+				for _, a := range ci.Common().Args {
+					if an.FieldProv(a) == "Task.Condition" {
+						if callee := ci.Common().StaticCallee(); callee != nil && an.InModule(callee) {
+							compiles = true
+						}
+					}
+				}
+			})
+			if compiles {
+				for _, ci := range an.CallsIn(fn, fnExecIface, fnExecDefault) {
+					n++
+					cc, _ := an.IsCallTo(ci, fnExecIface, fnExecDefault)
+					ok, what := uncancellable(cc.Args[1])
+					c.Check(ok, rule, an.Short(fn)+":condition-context", ci.Pos(), "the task's condition runs under a context cancellation cannot reach", "the task's condition runs under "+what+": a condition interrupted by Cancel exits non-zero, which reads as \"condition not met\" — the interrupted task is marked skipped and Run returns nil")
+				}
+			}
+		}
+		// the stage's condition: os/exec in pkg/scheduler
+		if inPkgs("pkg/scheduler")(fn) {
+			for _, ci := range an.CallsIn(fn, "os/exec.CommandContext") {
+				n++
+				ok, what := uncancellable(ci.Common().Args[0])
+				c.Check(ok, rule, an.Short(fn)+":condition-context", ci.Pos(), "the stage's condition runs under a context cancellation cannot reach", "the stage's condition runs under "+what+": a condition killed by Cancel is an exit error, which reads as \"condition not met\" — the stage is marked Skipped instead of the run being reported as interrupted")
+			}
+			for _, ci := range an.CallsIn(fn, "os/exec.Command") {
+				n++
+				c.OK(rule, an.Short(fn)+":condition-context", ci.Pos(), "the stage's condition is a plain exec.Command: cancellation does not reach it")
+			}
+		}
+	}
+	if n == 0 {
+		c.Und(rule, "conditions:context", token.NoPos, "neither the task's nor the stage's condition command was found")
+	}
 }
